@@ -198,6 +198,14 @@ func (e *Env) cellHeap(t types.Type) (string, Sort) {
 	return "H_" + sanitize(typeKey(t)), ArraySort(SInt, e.SortOf(t))
 }
 
+// elemHeap returns the heap for slice / array elements of a non-struct type t.
+// Element cells are kept apart from cells reached through *T pointers: the
+// executor flags an element address that escapes as a pointer value.
+func (e *Env) elemHeap(t types.Type) (string, Sort) {
+	e.noteHeapType("E_"+sanitize(typeKey(t)), t, false)
+	return "E_" + sanitize(typeKey(t)), ArraySort(SInt, e.SortOf(t))
+}
+
 // noteHeapType remembers the Go type of the values a heap holds.
 func (e *Env) noteHeapType(name string, t types.Type, isMap bool) {
 	if e.heapTypes == nil {
